@@ -19,7 +19,7 @@ RULES = [
   "returns the same error on every hit: existence of a hit is permutation invariant"),
  ("types/events.go", "EmitTypedEvent", "typed-event", "sdk.TypedEventToEvent", T+"typed_event_sorted_perm",
   "attributes arrive in map order (cosmos-sdk v0.45.2) and are sorted by key (distinct JSON field names) before emission"),
- ("app/app.go", "init", "fs", "*", "class:startup-configuration",
+ ("app/app.go", "init", "*", "*", "class:startup-configuration",
   "DefaultNodeHome (CLI default of --home) computed at process start; never read while processing blocks"),
  ("syscontracts/*/generated.go", "*", "select", "select", "class:abigen-binding-unreachable",
   "abigen event-subscription helpers for RPC clients; the state machine only uses the ABI / MetaData of these packages"),
@@ -47,6 +47,10 @@ RULES = [
  (ETH+"sealer.go", "startRemoteSealer", "go", "s.loop", "class:vendored-ethash-sealer-loop-idle",
   "New() starts the remote-sealer loop, Close() stops it; during a verification it receives nothing and touches only its own fields"),
  (ETH+"sealer.go", "(*remoteSealer).loop", "*", "*", "class:vendored-ethash-sealer-loop-idle", "see startRemoteSealer: idle loop, own fields only"),
+ (ETH+"sealer.go", "(*remoteSealer).notifyWork", "*", "*", "class:vendored-ethash-sealer-loop-idle",
+  "called by the loop only when a work package arrives on workCh; nobody sends one during a verification (found by the call-graph refinement: statically reachable from New)"),
+ (ETH+"sealer.go", "(*remoteSealer).submitWork", "*", "*", "class:vendored-ethash-sealer-loop-idle",
+  "called by the loop only when a result arrives on submitWorkCh; nobody sends one during a verification (found by the call-graph refinement: statically reachable from New)"),
  (ETH+"sealer.go", "*", "*", "*", "class:vendored-ethash-mining-unreachable", "mining (Seal / mine / remote work submission): no caller in the module"),
  (ETH+"verify_header.go", "(*Ethash).VerifySeal", "runtime", "runtime.KeepAlive", "class:vendored-ethash-pure-computation", "keeps the cache alive until hashimotoLight returns"),
 ]
@@ -61,7 +65,7 @@ def main():
             if fnmatch.fnmatchcase(s["file"], f) and fnmatch.fnmatchcase(s["func"], fn) and fnmatch.fnmatchcase(s["kind"], k) and fnmatch.fnmatchcase(s["expr"], e):
                 out.append({"file": s["file"], "func": s["func"], "kind": s["kind"], "expr": s["expr"], "discharge": d, "reason": why})
                 break
-    doc = {"comment": "C14 site expectations: every order-/environment-dependent site of the state-machine code (tools/nondetsites) with its discharge — a Lean theorem of Proofs/C14.lean or a class with a reason. Sites whose map-range body is syntactically order-independent are classified by the tool and need no entry. A site without entry breaks the check. Written by tools/nondetsites/mkexpect.py from a reviewed tree (the tree with fixes C14-ethash-tmpdir and C14-typed-event-order applied).",
+    doc = {"comment": "C14 site expectations: every order-/environment-dependent site of the state-machine code (tools/nondetsites) with its discharge — a Lean theorem of Proofs/C14.lean or a class with a reason. Sites whose map-range body is syntactically order-independent are classified by the tool and need no entry. A site without entry breaks the check. Written by tools/nondetsites/mkexpect.py from a reviewed tree (/repo with fixes C14-ethash-tmpdir and C14-typed-event-order applied).",
            "classes": CLASSES, "sites": out}
     json.dump(doc, sys.stdout, indent=1)
     sys.stdout.write("\n")
